@@ -184,6 +184,17 @@ impl Net {
         })))
     }
 
+    /// Streams on which bytes the peer sent are still unread by h3 (and were not discarded by a stop / reset): `(sid, bytes)`.
+    pub fn unread(&self) -> Vec<(u64, usize)> {
+        let g = self.lock();
+        g.streams
+            .iter()
+            .filter(|(_, s)| s.rx_stopped.is_none())
+            .map(|(id, s)| (*id, s.rx.iter().map(|b| b.len()).sum::<usize>()))
+            .filter(|(_, n)| *n > 0)
+            .collect()
+    }
+
     pub fn lock(&self) -> std::sync::MutexGuard<'_, NetState> {
         match self.0.lock() {
             Ok(g) => g,
